@@ -14,6 +14,7 @@ let show_res = function
   | RW ok -> "W:" ^ string_of_bool ok
   | RR r -> "R:" ^ show_rres r
   | RL l -> "L:" ^ String.concat "," (List.map hex l)
+  | RC ok -> "C:" ^ string_of_bool ok
 
 let parse_op c =
   match next c with
@@ -21,22 +22,28 @@ let parse_op c =
     let n = next_bytes c in
     let ct = next_bytes c in
     let ok = next_bool c in
-    (OWrite (n, ct), "W:" ^ string_of_bool ok)
+    (OWrite (n, ct), "W:" ^ string_of_bool ok, None)
   | "r" ->
     let n = next_bytes c in
     let tag = next c in
     let data = next_bytes c in
-    (ORead n, "R:" ^ (if tag = "ok" then "ok:" ^ hex data else tag))
+    (ORead n, "R:" ^ (if tag = "ok" then "ok:" ^ hex data else tag), (if tag = "ok" then Some (ROk data) else None))
   | "l" ->
     let p = next_bytes c in
     let names = next_list c next_bytes in
-    (OList p, "L:" ^ String.concat "," (List.map hex names))
+    (OList p, "L:" ^ String.concat "," (List.map hex names), None)
+  | "c" ->
+    let d = next_bytes c in
+    let sr = next_bytes c in
+    let ok = next_bool c in
+    (OCopy (d, sr), "C:" ^ string_of_bool ok, None)
   | t -> failwith ("bad op tag " ^ t)
 
 let show_op = function
   | OWrite (n, ct) -> Printf.sprintf "write(%S,%d bytes)" (string_of_bytes n) (List.length ct)
   | ORead n -> Printf.sprintf "read(%S)" (string_of_bytes n)
   | OList p -> Printf.sprintf "list(%S)" (string_of_bytes p)
+  | OCopy (d, sr) -> Printf.sprintf "copy(dst=%S,src=%S)" (string_of_bytes d) (string_of_bytes sr)
 
 let show_tree l =
   String.concat ";" (List.map (fun (p, k, ct) -> Printf.sprintf "%s:%s:%s" (hex p) k (hex ct)) l)
@@ -51,24 +58,33 @@ let handle kind c =
     let fs = ref fs_init in
     let sp = ref [] in
     let i = ref 0 in
-    List.iter (fun (op, impl) ->
+    let self_copied = ref None in
+    List.iter (fun (op, impl, impl_rres) ->
         incr i;
         let (rm, fs') = step_fs !fs op in
         if show_res rm <> impl then
           diff (Printf.sprintf "op%d-%s" !i (show_op op)) ~model:(show_res rm) ~impl;
         fs := fs';
         let (rs, sp') = step_spec true !sp op in
+        let sp' = ref sp' in
         if show_res rs <> impl then begin
           let cls = match op with
             | OWrite _ -> "write-outcome"
             | ORead n ->
               (match rs with
-               | RR (ROk _) -> "write-read"
+               | RR (ROk _) ->
+                 if !self_copied = Some n then begin
+                   (* judge later operations against what the bucket really holds now *)
+                   (match impl_rres with Some (ROk ct) -> sp' := sput (components n) ct !sp' | _ -> ());
+                   "copy-onto-itself"
+                 end else "write-read"
                | _ -> if collides (components n) !sp then "read-absent-colliding" else "read-absent")
-            | OList _ -> if deviating !sp op then "list-below-non-utf8-dir" else "list-exact" in
+            | OList _ -> if deviating !sp op then "list-below-non-utf8-dir" else "list-exact"
+            | OCopy (d, sr) -> if d = sr then "copy-onto-itself" else "copy-outcome" in
           prop cls (Printf.sprintf "op %d %s: property expects %s, bucket answered %s" !i (show_op op) (show_res rs) impl)
         end;
-        sp := sp') ops;
+        self_copied := (match op with OCopy (d, sr) when d = sr -> Some d | _ -> None);
+        sp := !sp') ops;
     if not confined then prop "confined" "a path outside the bucket directory was created or changed";
     (* the directory tree on disk vs the model tree *)
     let mtree = List.filter_map (fun (p, e) ->
